@@ -1,7 +1,8 @@
 (* C13 -- connection IDs are issued, routed and retired consistently.
    Property theorems only; each is closed by [exact] of a lemma proved in proofs/. *)
 From SQ Require Import lib.Base gen.Gen_C13.
-From SQ Require model.LocalIds proofs.LocalIdsProofs model.PeerIds proofs.PeerIdsProofs.
+From SQ Require model.LocalIds proofs.LocalIdsProofs proofs.LocalIdsRouting proofs.LocalIdsLifetime.
+From SQ Require model.PeerIds proofs.PeerIdsProofs proofs.PeerIdsJudge proofs.PeerIdsLimit.
 From Coq Require Import Sorting.Sorted.
 Import LocalIds.
 Local Open Scope N_scope.
@@ -64,6 +65,31 @@ Theorem C13_judge_run_example :
   (40 < length (run LocalIdsProofs.example_case))%nat.
 Proof. exact LocalIdsProofs.judge_run_example. Qed.
 
+(* routing, every case and every operation sequence: every id still held by the registry of an open connection
+   (everything issued that was neither removed after the peer's RETIRE_CONNECTION_ID nor expired) is mapped by
+   the endpoint's id map to exactly that connection *)
+Theorem C13_routed : forall case ops c r i,
+  creg (nth c (conns (LocalIdsProofs.state_after (fst (init case)) ops)) dummy_conn) = Some r ->
+  In i (infos r) ->
+  map_get (idm (LocalIdsProofs.state_after (fst (init case)) ops)) (iid i) = Some c.
+Proof. exact LocalIdsRouting.routed. Qed.
+
+(* retire_prior_to <= sequence_number in every NEW_CONNECTION_ID when all ids of the endpoint carry one constant
+   lifetime L (possibly none): from any initial state whose registries carry lifetime L, after any operation
+   sequence whose registrations use L *)
+Theorem C13_rpt_le_seq_constant_lifetime : forall L s0 ops,
+  LocalIdsProofs.GInv s0 -> LocalIdsLifetime.GL L s0 -> Forall (LocalIdsLifetime.op_life L) ops ->
+  forall c r constraint cap pn f,
+    creg (nth c (conns (LocalIdsProofs.state_after s0 ops)) dummy_conn) = Some r ->
+    In f (snd (on_transmit r constraint cap pn)) ->
+    let '(sq, p, _, _) := f in p <= sq.
+Proof. exact LocalIdsLifetime.rpt_le_seq_constant_lifetime. Qed.
+
+(* ... and a registry created with a handshake id of lifetime L meets that hypothesis *)
+Theorem C13_new_registry_has_lifetime : forall L nw id tok v rotate,
+  life v = L -> LocalIdsLifetime.LInv L nw (new_reg id tok (expiry v nw) rotate).
+Proof. exact LocalIdsLifetime.new_reg_linv. Qed.
+
 (* ---- peer side (PeerIdRegistry) ---- *)
 
 (* every RETIRE_CONNECTION_ID written in any reachable state (all cases, all operation sequences: NEW_CONNECTION_ID
@@ -95,6 +121,32 @@ Theorem C13_new_connection_id_codes : forall r sq rpt id tok,
   c = 0 \/ c = PeerIds.PROTOCOL_VIOLATION \/ c = PeerIds.CONNECTION_ID_LIMIT_ERROR.
 Proof. exact PeerIdsProofs.frame_codes. Qed.
 
+(* the exact outcome for a conflict-free frame (RFC 9000 5.1.1 / 5.1.2): after retiring everything below the largest
+   retire_prior_to, appending the new id (already retired when below it) and, if it is usable, retiring the
+   handshake id that waited for a replacement, the frame is refused with CONNECTION_ID_LIMIT_ERROR exactly when
+   more than active_connection_id_limit (3) ids are usable (not checked for a retransmission) or more than 6
+   retirements are outstanding; otherwise that id set is installed *)
+Theorem C13_new_connection_id_exact : forall r id sq rpt tok,
+  ~ Exists (PeerIdsProofs.conflict id tok sq) (PeerIds.pinfos r) ->
+  PeerIds.on_new_connection_id r id sq rpt tok =
+  let '(lf, dup) := PeerIdsLimit.after_frame r id sq rpt tok in
+  if (negb dup && (Gen_C13.peer_active_connection_id_limit <? PeerIdsLimit.pact lf))
+     || (Gen_C13.peer_retired_connection_id_limit <? N.of_nat (length lf) - PeerIdsLimit.pact lf)
+  then (PeerIds.CONNECTION_ID_LIMIT_ERROR, r) else (0, PeerIds.mkPR lf (N.max (PeerIds.prpt r) rpt)).
+Proof. exact PeerIdsLimit.on_new_connection_id_exact. Qed.
+
+Theorem C13_connection_id_limit_error_iff : forall r id sq rpt tok,
+  ~ Exists (PeerIdsProofs.conflict id tok sq) (PeerIds.pinfos r) ->
+  (fst (PeerIds.on_new_connection_id r id sq rpt tok) = PeerIds.CONNECTION_ID_LIMIT_ERROR <->
+   let '(lf, dup) := PeerIdsLimit.after_frame r id sq rpt tok in
+   (dup = false /\ Gen_C13.peer_active_connection_id_limit < PeerIdsLimit.pact lf) \/
+   Gen_C13.peer_retired_connection_id_limit < N.of_nat (length lf) - PeerIdsLimit.pact lf).
+Proof. exact PeerIdsLimit.limit_error_iff. Qed.
+
+(* the executable judgement accepts every run of the peer-side model *)
+Theorem C13_pcid_judge_model : forall case, PeerIds.judge case (PeerIds.run case) = true.
+Proof. exact PeerIdsJudge.judge_run. Qed.
+
 Theorem C13_peer_judge_run_example :
   PeerIds.judge PeerIdsProofs.example_case (PeerIds.run PeerIdsProofs.example_case) = true /\
   (40 < length (PeerIds.run PeerIdsProofs.example_case))%nat.
@@ -112,3 +164,9 @@ Print Assumptions C13_retire_only_issued_not_self.
 Print Assumptions C13_new_connection_id_protocol_violation_iff.
 Print Assumptions C13_new_connection_id_codes.
 Print Assumptions C13_peer_judge_run_example.
+Print Assumptions C13_routed.
+Print Assumptions C13_rpt_le_seq_constant_lifetime.
+Print Assumptions C13_new_registry_has_lifetime.
+Print Assumptions C13_new_connection_id_exact.
+Print Assumptions C13_connection_id_limit_error_iff.
+Print Assumptions C13_pcid_judge_model.
